@@ -39,6 +39,8 @@ EXTENDS Naturals, Sequences, FiniteSets, TLC, Json
 CONSTANTS Programs,     \* <<[name, init, threads, high, low]>>; init = <<ops>> run before the threads start
           GenTs,        \* generation id -> timestamp (0 = untagged)
           SplitRemove,  \* FALSE = the design
+          ClearSnapshot, \* FALSE = the design (clear() subtracts what it removes, inside the bucket section);
+                        \* TRUE = the usage counter is read once before the sweep and subtracted afterwards
           EmitOneIn
 
 VARIABLES prog, bk,     \* the bucket: <<[k, g, sz, ref]>>
@@ -103,6 +105,7 @@ Begin(s0, t, o) ==
   CASE o.op = "get" -> Goto(s, "cache_rd")
     [] o.op = "rem" -> Goto(s, IF SplitRemove THEN "cache_rd" ELSE "cache_wr")
     [] o.op = "evict" -> Goto(s, "cache_evlock")
+    [] o.op = "clear" -> Goto([s EXCEPT !.l.cu = s.mem], "cache_wr")
     [] o.op = "ins" -> IF o.sz > Prog.high \div 4 THEN Ret(s, t, "done")             \* "don't cache very large values"
                        ELSE IF s.mem + o.sz > Prog.high THEN Goto(s, "cache_evlock")
                        ELSE Goto(s, "cache_wr")
@@ -134,6 +137,9 @@ Do(t) ==
               ELSE LET idx == Match(s.bk, o.k, o.g) IN
                    IF idx = {} THEN Ret(s, t, "done")
                    ELSE LET i == MinOf(idx) IN Ret([s EXCEPT !.bk = RemoveAt(@, i), !.mem = @ - s.bk[i].sz], t, "done")
+         ELSE IF o.op = "clear" THEN
+              \* clear(): the bucket is emptied and the usage counter reduced by exactly what was removed, in one section
+              Ret([s EXCEPT !.bk = <<>>, !.mem = IF ClearSnapshot THEN (IF @ >= s.l.cu THEN @ - s.l.cu ELSE 0) ELSE @ - SumSz(s.bk)], t, "ok")
          ELSE Ret(s, t, "ok")
 
 \* "an explicit remove is never followed by a hit", stated at the step in which the remove returns: no entry that the
